@@ -146,3 +146,64 @@ CANARIES = {
 for _n, _f in CANARIES.items():
     _c = lemma(_n, _f, ())
     _c.canary = True
+
+
+# canaries for the axiom families of the later contracts (adjoints, slash types, functor object maps, python functions,
+# constructor call-site forms): each is a FALSE statement stated over exactly those hypotheses; it must be refuted on
+# every run, otherwise the hypotheses are contradictory and every obligation resting on them would be vacuous
+def _canary_adjoint(interp):
+    ex, w = interp.ex, interp.world
+    a, b = ex.sym_ty('A'), ex.sym_ty('B')
+    both = w.ty_adjoint(interp, T.ty_concat(a.t, b.t), 'l')
+    w.ty_adjoint(interp, T.ty_concat(a.t, b.t), 'r')
+    ex.prove('canary:(A @ B).l == A.l @ B.l', T.ty_eq(both, T.ty_concat(w.ty_adjoint(interp, a.t, 'l'), w.ty_adjoint(interp, b.t, 'l'))))
+
+
+def _canary_slash(interp):
+    from .grammar import _bF, _slash_ty
+    ex, w = interp.ex, interp.world
+    F = _bF()
+    o, u = _slash_ty(ex, 'O', 'over'), _slash_ty(ex, 'U', 'under')
+    fo = w.functor_ty(interp, F, T.ty_concat(o.t, u.t))
+    ex.prove('canary:F(a << b) == F(a) @ F(b)', T.ty_eq(w.functor_ty(interp, F, o.t),
+                                                       T.ty_concat(F.FT(T.ty_sl(o.t)), F.FT(T.ty_sr(o.t)))))
+
+
+def _canary_rigid_functor(interp):
+    ex, w = interp.ex, interp.world
+    F = VFunctor('F', ar_factory='rigid.Diagram')
+    F.adjoints = True
+    x = ex.sym_ty('x')
+    fx = w.functor_ty(interp, F, x.t)
+    ex.prove('canary:F(x.l) == F(x)', T.ty_eq(w.functor_ty(interp, F, w.ty_adjoint(interp, x.t, 'l')), fx))
+
+
+def _canary_pyfun(interp):
+    from .cartesian import _function, unfold
+    ex, w = interp.ex, interp.world
+    obj, f, n, m = _function(ex, 'f')
+    F = VFunctor('F', ar_factory='cartesian.Function')
+    F.python = True
+    t = ex.sym_ty('t')
+    w.functor_ty(interp, F, t.t)
+    x = z3.Const('x', T.TyS)
+    ex.assume(z3.Length(x) == n)
+    ex.prove('canary:a box function returns its input', T.ty_eq(unfold(ex, f, x), x))
+
+
+def _canary_constructors(interp):
+    from .structural import _make_swap
+    from .grammar import _make_cupcap
+    ex = interp.ex
+    l, r = ex.sym_ty('l'), ex.sym_ty('r')
+    sw = _make_swap(interp, [l, r], {})
+    cu = _make_cupcap('Cup')(interp, [l, r], {})
+    ex.prove('canary:Swap(l, r).cod == l @ r', T.ty_eq(T.bcod(sw.t), T.ty_concat(l.t, r.t)))
+    ex.prove('canary:Cup(l, r).cod == l', T.ty_eq(T.bcod(cu.t), l.t))
+
+
+for _n, _f in {'canary:adjoint.homomorphic': _canary_adjoint, 'canary:slash.functor': _canary_slash,
+               'canary:rigid.functor': _canary_rigid_functor, 'canary:pyfun.identity': _canary_pyfun,
+               'canary:constructors': _canary_constructors}.items():
+    _c = lemma(_n, _f, ())
+    _c.canary = True
